@@ -255,7 +255,7 @@ class odict(dict):
 
         if other is self:
             #raise ValueError('other cannot be the same odict')
-            pass #updating with self makes no changes
+            return #updating with self makes no changes
 
         dict.update(self, other)
         keys = self._keys
